@@ -34,6 +34,43 @@ NA = {
   "C39": "pure decoding of one solve output",
   "C40": "pure function of (model, state)",
 }
+LEVEL_TEXT = {
+  "C08": "Seeded lock-step histories: every step is taken by mujoco_warp and by MuJoCo C from the same re-synchronised state, for all four integrators; sampling of models, states and histories, not enumeration. A clean batch is evidence that no integrator path drifts from MuJoCo beyond float32/solver tolerance on the explored histories.",
+  "C09": "Seeded search over batches: a target world is simulated inside twin batches whose other worlds differ in everything (states, inputs, resets, sleep, near-overflow of the shared contact buffer) and must stay bit-identical over the whole history; batch size/position is compared single-step to round-off. Exploration: the quantifier (any batch, any neighbours, any history) is sampled.",
+  "C10": "Every batchable float field of Model/Option/Statistic is visited in turn (cyclic enumeration of the field list) with seeded per-world values and batch sizes nworld / divisor / 1; world i of the batched model must be bit-identical to an unbatched model holding its values. Fields are enumerated, values, models and histories are sampled; fields that are dead in the sampled scene are reported as such.",
+  "C11": "The simulator owns the serial order of the tasks of every kernel launch (DESC, STRIDE, BLOCK, PERM, per launch / per stage / per kernel) and compares each op with its ascending twin from the same state, with poisoned scratch memory and exact-fit capacities. Exploration of schedules: whole-task serial orders only, sampled.",
+  "C12": "Crash/restart with only durable state surviving: the integration state is transplanted (get_state/set_state) from a Data with an arbitrary past (steps, resets, overflows, other capacities, garbage scratch) into a fresh Data; forward() and K steps must be bit-identical. Exploration over histories and allocator patterns.",
+  "C13": "Per-node restart: after seeded histories reset_data is called with every mask shape and dtype; selected worlds must equal a fresh Data bit for bit (state, delay buffers, sleep state, following trajectory), unselected worlds their un-reset twin. Exploration over histories, masks and model features.",
+  "C14": "Per-node restart to a keyframe: valid, invalid, mixed and malformed key arguments after seeded histories; valid worlds are compared bit-exactly with a fresh reset plus the keyframe (cross-checked with mj_resetDataKeyframe), invalid-index worlds with their untouched twin. Exploration.",
+  "C16": "Fault enumeration: for each sampled probe state the capacity axis of each kind (naconmax, njmax, njmax_nnz) is enumerated completely from 0 to need+1 (bounded subsets only where a value costs a kernel build), each value injected as an allocation limit; every world must report the matching overflow bit or equal the ample run. Probe states, models and schedules are sampled.",
+  "C17": "Exploration under Warp's bounds-checked debug build: seeded fault plans (zero/tiny/exact capacities of every kind, iteration budgets 0/1, permuted schedules, poisoned scratch, resets) run in worker processes; a worker death or an arithmetic/indexing error of a public op is the violation, attributed by write-ahead log and replayed alone; a table of invalid configurations must raise.",
+  "C23": "Invariant monitoring along long seeded histories (all integrators, large angular velocities, unnormalised start quaternions): after every step every free/ball quaternion is unit and every reported orientation is a proper rotation. Exploration over histories.",
+  "C25": "Fault enumeration over the iteration budget: for each sampled probe batch the limit L is enumerated from 0 to max need + 2 for both loop forms; per world the iteration count, the ITERATIONS bit and bit-identity with the generous-limit result are checked. Probe batches are sampled, the budget axis is enumerated.",
+  "C29": "Clause monitors over seeded histories with sleep count-downs, user perturbations and waking kernels under permuted schedules, with a stage tap after forward() to see within-step wakes, a well-formed-cycle invariant, bounded liveness (asleep within MINAWAKE+3 calm steps) and a guarded lock-step against MuJoCo C. Exploration.",
+  "C30": "Simulated clock on dyadic time grids: the same op sequence (controls, masked resets, history initialisation, timed reads) drives mujoco_warp and MuJoCo C on plants with delayed/interval actuators and scalar and vector sensors; applied control, sensor values, buffers and read_ctrl/read_sensor must agree at every step past buffer wrap-around. Exploration over histories and buffer shapes.",
+  "C36": "Process history as the schedule: a target program is run after a seeded sequence of polluter programs in the same interpreter (differing in exactly what keys process-global caches, including the target itself with flipped flags / other batch sizes) and compared digest by digest with the same target in a fresh interpreter. Exploration over program sequences.",
+  "C37": "Algebraic laws over call sequences on twin Data from the same state: step = step1;step2 (Euler, implicit, implicitfast), forward leaves the integration state untouched, forward;forward = forward, all bit-exact. Exploration over models, states and integrators.",
+  "C38": "Fault enumeration over the DOF capacity: lock-step variants of one sleep history with nvmax swept (completely for nv <= 24 in the thorough tier, boundary values and seeded interior values otherwise); NVMAX bit when active DOFs exceed it, otherwise equality with the ample run, compact = full solve when every tree is awake, frozen DOFs exactly zero.",
+}
+DST = "deterministic simulation with fault injection: "
+TECHNIQUE = {
+  "C08": DST + "seeded op histories on a simulated clock, lock-step refinement against the MuJoCo C reference model, state re-synchronised every step",
+  "C09": DST + "seeded multi-world histories, twin batches with perturbed neighbours (bit-exact content independence), shared-buffer pressure and neighbour resets as faults, simulator-owned schedules",
+  "C10": DST + "seeded twin runs of a batched and an unbatched model per enumerated field, co-resident worlds with different parameters as the interference",
+  "C11": DST + "seeded search over simulator-owned serial task schedules of every kernel launch, poisoned allocator, exact-fit capacities; differential against the ascending order; ddmin to one kernel",
+  "C12": DST + "crash/restart (only the integration state survives, transplanted into a fresh Data) after seeded histories with overflow episodes and garbage scratch memory; bit-exact twin oracle",
+  "C13": DST + "per-world restart (reset_data) injected into seeded histories, fresh-Data and un-reset-twin reference models, bit-exact",
+  "C14": DST + "per-world keyframe restart with valid/invalid/malformed selections injected into seeded histories, twin and MuJoCo reference",
+  "C16": DST + "allocation-failure injection: complete sweep of each capacity from 0 to need+1 per sampled probe state, under ascending and permuted schedules",
+  "C17": DST + "seeded fault plans (capacities, budgets, schedules, poison) executed in sacrificial worker processes under the bounds-checked build; crash attribution by write-ahead log and replay",
+  "C23": DST + "invariant monitoring after every step of long seeded histories on the simulated clock",
+  "C25": DST + "time-out injection: complete sweep of the solver iteration budget per sampled probe batch, both loop forms, worlds converging at different iterations",
+  "C29": DST + "seeded histories with count-down timers, user perturbations and permuted waking kernels; clause monitors with a mid-step stage tap, bounded-liveness check, guarded lock-step with MuJoCo C",
+  "C30": DST + "simulated clock on dyadic grids, seeded control sequences past buffer wrap-around, resets and history initialisation as faults, lock-step against MuJoCo C",
+  "C36": DST + "process history as the schedule: seeded polluter programs before the target in one interpreter vs the target alone in a fresh interpreter, digest equality",
+  "C37": DST + "seeded call sequences on twin Data, bit-exact algebraic laws between pipeline entry points",
+  "C38": DST + "DOF-capacity fault sweep along seeded sleep histories, lock-step variants compared world by world",
+}
 PENDING = ("designed in DESIGN.md; not claimed: its check module (sim/props, if present) has not been shown quiet on the unchanged tree from a fresh "
            "restore at more than one seed, so no verdict of it is offered (no claim is made until its command is sound)")
 # modules that exist but are not claimed yet (their last recorded runs still showed unclassified alarms or harness errors)
@@ -72,9 +109,9 @@ def main():
       "evidence_file": f"/verif/evidence/{pid}.json",
       "replay_cmd_template": f"/venv/bin/python check.py {pid} --replay {{path}}",
       "engine": "dst",
-      "level_claimed": {"category": const("LEVEL", "exploration"), "text": const("LEVEL_TEXT", ""), "design_ref": "DESIGN.md section 7, " + pid},
+      "level_claimed": {"category": const("LEVEL", "exploration"), "text": const("LEVEL_TEXT", "") or LEVEL_TEXT.get(pid, ""), "design_ref": "DESIGN.md section 7, " + pid},
       "level_note": const("LEVEL_NOTE", "sampling, not enumeration; CPU backend; serial orders of whole tasks only; MuJoCo 3.13 / Warp 1.17 trusted"),
-      "technique": const("TECHNIQUE", "deterministic simulation with fault injection: seeded search over scenarios"),
+      "technique": const("TECHNIQUE", "") or TECHNIQUE.get(pid, "deterministic simulation with fault injection: seeded search over scenarios"),
     })  # fmt: skip
   man = {
     "version": 1,
